@@ -52,7 +52,7 @@ EXPECTED_PROBES = {
             'stop_m', 'stop_func', 'stop_cb', 'stop_e', 'stop_e_vld', 'stop_nswp', 'pre_iteration_stop',
             'valueerror_rejected'],
     'C05': ['restart_all_from_cache_conv', 'reproduction_checked', 'transparency_bitwise', 'foreign_cache',
-            'crash_none', 'crash_m', 'crash_cb', 'liveness_checked'],
+            'crash_none', 'crash_m', 'crash_cb', 'liveness_checked', 'reproduction_checked_at_interruption'],
 }
 BUDGET = {
     'C06': {'quick': {'n': 128, 'max_s': 150, 'chunk': 1}, 'thorough': {'n': 1600, 'max_s': 3000, 'chunk': 1}},
@@ -116,6 +116,7 @@ def gen_config(rng, small=False):
         'latency': [round(rng.choice([0.0, 1e-3, 0.5, 3600.0]) * rng.random(), 6) for _ in range(rng.randint(0, 3))],
         'jumps': {str(rng.randint(1, 4)): rng.choice([-1e6, 1e3, 86400.0])} if rng.random() < 0.3 else {},
         'ret_list': rng.random() < 0.15,
+        'ret': rng.choice(['f64', 'f64', 'f64', 'f64', 'list', 'f32']),     # what the objective hands back
     }
     if rng.random() < 0.4:
         cfg['vld'] = {'m': rng.randint(1, 12), 'seed': rng.randrange(1 << 30)}
@@ -172,6 +173,9 @@ class Obs:
 def materialise(cfg):
     n = cfg['n']
     T = make_table(n, cfg['target'])
+    if cfg.get('ret') == 'f32':
+        # a single-precision objective: the tensor it defines is the table rounded to float32
+        T = T.astype(np.float32).astype(np.float64)
     Y0 = make_tt(n, cfg['y0']['r'], cfg['y0']['seed'], dist='uniform')
     I_vld = y_vld = None
     if cfg.get('vld'):
@@ -190,7 +194,7 @@ def run_once(cfg, world, plan, cache=None, Y0=None, stop_args=None, keep_tensors
     CLOCK.reset()
     m = plan.get('m')
     o.f = Objective(T, o.events, none_at=plan.get('none_at'), m_max=m, latency=cfg.get('latency'),
-                    ret_list=cfg.get('ret_list', False))
+                    ret_list=cfg.get('ret_list', False) or cfg.get('ret') == 'list', ret_f32=cfg.get('ret') == 'f32')
     o.mon = Monitor(o.events, cb_at=plan.get('cb_at'), jumps=cfg.get('jumps'), keep_tensors=keep_tensors,
                     sweep_cap=sweep_cap or 40)
     o.info = {}
@@ -871,6 +875,17 @@ def execute_incarnations(scen):
                     break
         if stop in ('nswp', 'e', 'e_vld', 'conv', 'cb', 'func', 'm'):
             check_info_truth(o, world, Ypre_cur, V, tag, stats)
+        # reproduction holds at every interruption point once it has been reached: if the tensor at the last completed
+        # sweep already equals an exact-rank target, a return from inside the next sweep (budget / objective None) does too
+        if stop in ('func', 'm') and nsw >= 1 and cfg['target']['kind'] == 'tt' and not V:
+            e_prev = rel_err(tt_full(o.mon.snaps[-1]['Y']), T)
+            if e_prev <= 1e-11:
+                e_now = rel_err(tt_full(o.Y), T)
+                P('reproduction_checked_at_interruption')
+                if not e_now <= 1e-8:
+                    V.append(viol(prop, 'reproduction-interrupted', '%s: the tensor after sweep %d equals the target (rel. error %.1e) but the tensor returned '
+                                  'from the interruption inside sweep %d has rel. error %.3e (stop=%s, %d objective calls)'
+                                  % (tag, nsw, e_prev, nsw + 1, e_now, stop, o.f.calls)))
         h.append((cjson(plan), stop, o.info.get('m'), o.info.get('m_cache'), nsw, [G.tobytes() for G in o.Y]))
         if V:
             break
@@ -905,6 +920,37 @@ def execute_incarnations(scen):
                 if not err <= 1e-8:
                     V.append(viol(prop, 'reproduction', 'target of TT-ranks %s (cond %.1e): ranks at the start of the last sweep %s >= true ranks but rel. error %.3e (nswp=%d dr=%d/%d r0=%d)'
                                   % (tr, cond, rk_prev, err, len(snaps), cfg['dr_min'], cfg['dr_max'], cfg['y0']['r'])))
+            # every interruption point of the sweep that follows the first exact sweep (uncached, objective returns None at call k)
+            if cond <= 1e5 and len(snaps) >= 2:
+                errs = [rel_err(tt_full(sn['Y']), T) for sn in snaps]
+                exact = [i for i, e in enumerate(errs[:-1]) if e <= 1e-11]
+                if exact:
+                    s0 = exact[0]                       # snapshot index: sweep s0+1 is exact
+                    calls_before = 0
+                    sweeps_seen = 0
+                    first = last = None
+                    for ev in fin.events:
+                        if ev[0] == 'f':
+                            calls_before += 1
+                            if sweeps_seen == s0 + 1:
+                                first = first or calls_before
+                                last = calls_before
+                        else:
+                            sweeps_seen += 1
+                    for kcall in range(first or 1, (last or 0) + 1):
+                        oi = run_once(cfg, world, {'none_at': kcall}, keep_tensors=False)
+                        runs += 1
+                        Fk('objective_none_after_exact_sweep')
+                        if oi.Y is None:
+                            V.append(viol(prop, 'exception', 'interruption at objective call %d (sweep %d) failed: %r %r' % (kcall, s0 + 2, oi.exc, oi.abort)))
+                            break
+                        e_now = rel_err(tt_full(oi.Y), T) if wellformed_tt(oi.Y, n) is None else float('inf')
+                        P('reproduction_checked_at_interruption')
+                        if not e_now <= 1e-8:
+                            V.append(viol(prop, 'reproduction-interrupted', 'the tensor after sweep %d equals the target (rel. error %.1e) but the tensor returned when the '
+                                          'objective gives None at call %d (inside sweep %d, calls %d..%d) has rel. error %.3e (dr=%d/%d)'
+                                          % (s0 + 1, errs[s0], kcall, s0 + 2, first, last, e_now, cfg['dr_min'], cfg['dr_max'])))
+                            break
             if scen.get('expect') in ('grow', 'fixed') and cond <= 1e5:
                 P('liveness_checked')
                 if not reached:
@@ -955,7 +1001,7 @@ def shrink(scen, v):
             if c.get('fresh_y0'):
                 s = cp(); s['crashes'][i]['fresh_y0'] = False; yield s
     # configuration
-    for key, val in (('log', False), ('latency', []), ('jumps', {}), ('ret_list', False), ('e', None),
+    for key, val in (('log', False), ('latency', []), ('jumps', {}), ('ret_list', False), ('ret', 'f64'), ('e', None),
                      ('e_vld', None), ('vld', None), ('k0', 100), ('tau', 1.1), ('tau0', 1.05), ('m_cache_scale', 5)):
         if cfg.get(key) != val:
             s = cp(); s['cfg'][key] = val
